@@ -161,7 +161,7 @@ func init() {
 	}
 
 	M := func(kv ...int) map[string]int {
-		keys := []string{"streams", "packets", "payload", "gaps", "files", "starts", "idxbases", "ids", "mergefiles", "addrmode", "saddrs", "dirs"}
+		keys := []string{"streams", "packets", "payload", "gaps", "files", "starts", "idxbases", "ids", "mergefiles", "addrmode", "saddrs", "dirs", "caddrs"}
 		m := map[string]int{}
 		for i, v := range kv {
 			m[keys[i]] = v
@@ -173,6 +173,7 @@ func init() {
 			{Pkg: ix, Func: "ZZ_C07_Merge", Desc: "two files, one stream each, overlapping or distinct ids", Quick: tier(M(1, 1, 1, 1, 1, 2, 1, 2, 1)), Thorough: tier(M(1, 2, 1, 1, 2, 3, 2, 3, 1)),
 				Bounds: "input files written by the real writer; stream ids from a 2..3 element domain so overlap / shadowing is enumerated; addresses, ports, payload bytes symbolic; reference seconds of the files differ via start offsets; merged suffix enumerated"},
 			{Pkg: ix, Func: "ZZ_C07_Merge", Desc: "two files, up to two streams each", Quick: tier(M(2, 1, 0, 1, 1, 1, 1, 3, 1, 1, 1, 1)), Thorough: tier(M(2, 1, 1, 1, 1, 1, 1, 3, 1, 1, 2, 1))},
+			{Pkg: ix, Func: "ZZ_C07_Merge", Desc: "two files, two streams each, first-packet times earlier/later (time re-basing)", Quick: tier(M(2, 1, 0, 1, 1, 3, 1, 2, 1, 1, 1, 1, 1)), Thorough: tier(M(2, 1, 1, 1, 1, 3, 1, 3, 1, 1, 1, 1, 1))},
 			{Pkg: ix, Func: "ZZ_C07_Merge", Desc: "three files, suffix of 2 or 3 merged", Quick: tier(M(1, 1, 0, 1, 1, 1, 1, 2, 2, 1)), Thorough: tier(M(1, 1, 1, 1, 1, 2, 1, 3, 2, 1))},
 		},
 		Assumptions: []string{"as C01; clock = deterministic increasing instants (file names of merge outputs)", "oracle: the newest version of every id, compared field by field, payload and packet references included"},
